@@ -27,6 +27,7 @@ type Obl struct {
 	Res    SolverRes
 	Status string // discharged | failed | undecided
 	Known  string
+	Prefer string // preferred solver (contract option solver=...)
 	Vars   map[string]string // model variable names of interest: source name -> smt term
 }
 
@@ -84,6 +85,8 @@ type Ctx struct {
 	stableNames bool
 	nzDone    map[string]bool
 	definesUsed map[string]bool
+	stableFV  map[string]bool
+	inst      string // instance label (opt instances=...), appended to obligation names
 }
 
 func (c *Ctx) drop(what string) { c.dropped[what]++ }
@@ -99,11 +102,15 @@ func (c *Ctx) addObl(kind, name, cond, src string) *Obl {
 	if cond == "true" {
 		// still count it: trivially discharged obligations are real obligations
 	}
+	name += c.inst
 	c.oblSeq[name]++
 	if n := c.oblSeq[name]; n > 1 {
 		name = fmt.Sprintf("%s#%d", name, n)
 	}
 	o := &Obl{Name: name, Kind: kind, Fn: c.fnName(), Reach: c.curReach, Cond: cond, Src: src, Props: c.props}
+	if c.con != nil {
+		o.Prefer = c.con.Opts["solver"]
+	}
 	c.obls = append(c.obls, o)
 	return o
 }
@@ -188,6 +195,75 @@ func rootAlloc(v ssa.Value) *ssa.Alloc {
 			return nil
 		}
 	}
+}
+
+// stableFreeVar: fv of closure fn is read-only inside fn, and in the enclosing function the
+// captured variable is stored to exactly once (its initialisation) and otherwise only
+// loaded or captured by read-only closures.
+func stableFreeVar(fn *ssa.Function, fv *ssa.FreeVar) bool {
+	if !readOnlyFreeVar(fv, 0) {
+		return false
+	}
+	parent := fn.Parent()
+	if parent == nil {
+		return false
+	}
+	idx := -1
+	for i, f := range fn.FreeVars {
+		if f == fv {
+			idx = i
+		}
+	}
+	var bound ssa.Value
+	for _, b := range parent.Blocks {
+		for _, in := range b.Instrs {
+			if mc, ok := in.(*ssa.MakeClosure); ok && mc.Fn == ssa.Value(fn) && idx >= 0 && idx < len(mc.Bindings) {
+				if bound != nil && bound != mc.Bindings[idx] {
+					return false
+				}
+				bound = mc.Bindings[idx]
+			}
+		}
+	}
+	switch b := bound.(type) {
+	case *ssa.Alloc:
+		refs := b.Referrers()
+		if refs == nil {
+			return false
+		}
+		stores := 0
+		for _, r := range *refs {
+			switch x := r.(type) {
+			case *ssa.Store:
+				if x.Addr != ssa.Value(b) {
+					return false
+				}
+				stores++
+			case *ssa.UnOp:
+				if x.Op != token.MUL {
+					return false
+				}
+			case *ssa.DebugRef:
+			case *ssa.MakeClosure:
+				cf, _ := x.Fn.(*ssa.Function)
+				if cf == nil {
+					return false
+				}
+				for bi, bb := range x.Bindings {
+					if bb == ssa.Value(b) && (bi >= len(cf.FreeVars) || !readOnlyFreeVar(cf.FreeVars[bi], 0)) {
+						return false
+					}
+				}
+			default:
+				return false
+			}
+		}
+		return stores <= 1
+	case *ssa.FreeVar:
+		// captured through an intermediate closure
+		return stableFreeVar(parent, b)
+	}
+	return false
 }
 
 // readOnlyFreeVar: the captured variable is only loaded inside the closure (and inside
@@ -298,9 +374,24 @@ func (c *Ctx) run() {
 		c.paramVals[p.Name()] = v
 	}
 	for _, fv := range fn.FreeVars {
+		c.stableNames = true
 		v := c.freshVal(fv.Type(), "fv_"+fv.Name())
+		c.stableNames = false
 		c.vals[fv] = v
 		c.paramVals[fv.Name()] = v
+		// a captured variable that is written only once (its initialisation, before the
+		// capture) and only read by the closures: its content is a fixed value during the
+		// closure's run; contracts name that value by the variable's name
+		if pt, ok := fv.Type().Underlying().(*types.Pointer); ok && stableFreeVar(fn, fv) {
+			c.stableNames = true
+			content := c.freshVal(pt.Elem(), "p_"+fv.Name())
+			c.stableNames = false
+			nv := *v
+			nv.Loc = &Loc{Kind: LConst, Const: content}
+			c.vals[fv] = &nv
+			c.paramVals[fv.Name()] = content
+			c.stableFV[fv.Name()] = true
+		}
 	}
 	c.entry = st.clone()
 	// requires
